@@ -14,6 +14,10 @@
     toks <s,e;s,e;…>                     lexer tokens by character offsets (into the current file content)         → ok <n> <offchain true|false>
     tokpos <i>                           (line,col)..(line,col) of token i by own line/column arithmetic           → ok bl,bc,el,ec | none
     ispan <lo> <hi>                      span of a tree that consumed tokens [lo, hi)                                → ok bl,bc,el,ec | none
+    tokswf                               every current token non-empty and inside the current file content (tokensInText) → true | false
+    iregion <lo> <hi>                    offsets of the characters whose (line, col) lies in the span of a tree over tokens [lo, hi)
+                                                                                          → ok <first> <count> <consecutive true|false> | none
+    itoks <lo> <hi>                      indices of the current tokens whose spans lie inside that span             → ok <first> <count> <consecutive true|false> | none
     iwf <itree>                          itree tokens: ( lo hi child … )  — the interface hypothesis                → true | false
     collect <steps> <span;span;…>        ErrorCollector._quotation_lines on the current file content (0-based token spans)
                                                                                           → ok <hex of "\n".join(lines)> | <error>
@@ -36,6 +40,7 @@ structure St where
   content : Str := []
   toks : List Hull.OTok := []
   spans : List Hull.TSpan := []
+  tab : List Hull.P := []
 
 instance : Inhabited St := ⟨{}⟩
 
@@ -134,7 +139,7 @@ def step (st : St) : List String → St × String
     | some ts =>
       let tab := (Hull.posScan ⟨1, 1⟩ st.content).toArray
       let posAt (o : Nat) : Hull.P := (tab[o]?).getD (Hull.posOf st.content o)   -- = posOf (Lemmas: posScan_get)
-      ({ st with toks := ts, spans := ts.map fun t => ⟨posAt t.s, posAt t.e⟩ },
+      ({ st with toks := ts, tab := tab.toList, spans := ts.map fun t => ⟨posAt t.s, posAt t.e⟩ },
         s!"ok {ts.length} {if decide (Hull.OffChain ts) then "true" else "false"}")
     | none => (st, "bad-op")
   | ["tokpos", i] =>
@@ -147,6 +152,19 @@ def step (st : St) : List String → St × String
     match lo.toNat?, hi.toNat? with
     | some l, some h => (st, match Hull.spanOf st.spans l h with
       | some sp => "ok " ++ showT sp
+      | none => "none")
+    | _, _ => (st, "bad-op")
+  | ["tokswf"] => (st, if Hull.tokensInText st.content st.toks then "true" else "false")
+  | ["iregion", lo, hi] =>
+    match lo.toNat?, hi.toNat? with
+    | some l, some h => (st, match Hull.spanOf st.spans l h with
+      | some sp => let (f, n, c) := Hull.regionOfTable st.tab sp; s!"ok {f} {n} {if c then "true" else "false"}"
+      | none => "none")
+    | _, _ => (st, "bad-op")
+  | ["itoks", lo, hi] =>
+    match lo.toNat?, hi.toNat? with
+    | some l, some h => (st, match Hull.spanOf st.spans l h with
+      | some sp => let (f, n, c) := Hull.tokensInSpan st.spans sp; s!"ok {f} {n} {if c then "true" else "false"}"
       | none => "none")
     | _, _ => (st, "bad-op")
   | ["iwf", spec] =>
